@@ -167,6 +167,8 @@ impl<F> FuturesUnordered<F> {
             Some(last) => last,
             None => {
                 self.groups.push(FuturesUnorderedBounded::new(MIN_CAPACITY));
+                #[cfg(futures_buffered_verif)]
+                crate::verif::ev(crate::verif::kind::GROUP_NEW, self.groups[0].shared.verif_header(), MIN_CAPACITY, 0);
                 self.groups
                     .last_mut()
                     .expect("group should have at least one entry")
@@ -176,6 +178,8 @@ impl<F> FuturesUnordered<F> {
             Ok(()) => {}
             Err(future) => {
                 let mut next = FuturesUnorderedBounded::new(last.capacity() * 2);
+                #[cfg(futures_buffered_verif)]
+                crate::verif::ev(crate::verif::kind::GROUP_NEW, next.shared.verif_header(), next.capacity(), 0);
                 next.push(future);
                 self.groups.push(next);
             }
@@ -225,6 +229,8 @@ impl<F: Future> Stream for FuturesUnordered<F> {
                 *poll_next = 0;
             }
 
+            #[cfg(futures_buffered_verif)]
+            crate::verif::ev(crate::verif::kind::GROUP_VISIT, groups[*poll_next].shared.verif_header(), *poll_next, groups.len());
             let poll = Pin::new(&mut groups[*poll_next]).poll_next(cx);
             match poll {
                 Poll::Ready(Some(x)) => {
@@ -233,6 +239,8 @@ impl<F: Future> Stream for FuturesUnordered<F> {
                 }
                 Poll::Ready(None) => {
                     let group = groups.remove(*poll_next);
+                    #[cfg(futures_buffered_verif)]
+                    crate::verif::ev(crate::verif::kind::GROUP_REMOVE, group.shared.verif_header(), *poll_next, groups.len());
                     debug_assert!(group.is_empty());
 
                     if groups.is_empty() {
@@ -245,6 +253,8 @@ impl<F: Future> Stream for FuturesUnordered<F> {
                     // we do not want to drop the last set as it contains
                     // the largest allocation that we want to keep a hold of
                     if *poll_next == groups.len() {
+                        #[cfg(futures_buffered_verif)]
+                        crate::verif::ev(crate::verif::kind::GROUP_REINSERT, group.shared.verif_header(), *poll_next, groups.len());
                         groups.push(group);
                         *poll_next = 0;
                     }
